@@ -4,8 +4,9 @@
  * Base version: VP_B0 / VP_B1 / VP_B2 files on levels 0 / 1 / 2 (symbolic
  * numbers, sizes, 9-byte internal keys = 1 user byte + 8 byte tag), sorted by
  * (smallest, number) as every builder output is, levels >= 1 disjoint.
- * Edit: VP_NA added files (symbolic level 0..2) and VP_ND deleted
- * (level, number) pairs (symbolic; may hit base files or nothing), built with
+ * Edit: VP_NA added files (levels from VP_AL) and VP_ND deleted
+ * (level, number) pairs (levels from VP_DL, numbers symbolic: may hit base
+ * files or nothing), built with
  * the real ldb_edit_add_file / ldb_edit_remove_file.
  * Asserted for the version produced by the real builder:
  *   - per level, the file list == (base \ deleted) u added (by number, with
@@ -92,6 +93,22 @@ ref_file_cmp(const uint8_t *sa, uint64_t na, const uint8_t *sb, uint64_t nb) {
   return 0;
 }
 
+/* Levels of the added / deleted entries: concrete per query (decimal digit i
+ * of VP_AL / VP_DL, e.g. VP_AL=21: first file on level 1, second on level 2);
+ * a symbolic level makes every rb-tree access fan out over all levels. */
+#ifndef VP_AL
+#define VP_AL 11
+#endif
+#ifndef VP_DL
+#define VP_DL 11
+#endif
+static int
+vp_level(int digits, int i) {
+  while (i-- > 0)
+    digits /= 10;
+  return digits % 10;
+}
+
 static void
 sym_file(vp_file_t *f, int level) {
   f->level = level;
@@ -160,14 +177,12 @@ harness(void) {
   /* the edit */
   ldb_edit_init(&edit);
   for (i = 0; i < VP_ND; i++) {
-    vp_del[i].level = vp_u8();
-    VP_ASSUME(vp_del[i].level < VP_NL);
+    vp_del[i].level = vp_level(VP_DL, i);
     vp_del[i].number = vp_u64();
     ldb_edit_remove_file(&edit, vp_del[i].level, vp_del[i].number);
   }
   for (i = 0; i < VP_NA; i++) {
-    int lv = vp_u8();
-    VP_ASSUME(lv < VP_NL);
+    int lv = vp_level(VP_AL, i);
     sym_file(&vp_add[i], lv);
     k1.data = vp_add[i].sk; k1.size = VP_KLEN; k1.alloc = 0;
     k2.data = vp_add[i].lk; k2.size = VP_KLEN; k2.alloc = 0;
@@ -290,8 +305,10 @@ harness(void) {
       }
     }
     VP_WITNESS("disjoint");
+#if VP_B1 >= 2 && VP_ND >= 1
     if (hit > 0 && v->files[1].length >= 2)
       VP_WITNESS("disjoint-with-deletion");
+#endif
   } else {
     VP_WITNESS("overlapping-addition");
   }
